@@ -26,6 +26,25 @@ CLAIMED = {
              "definitions equal to them, and every transition is replayed into both evaluator families, derivative_curve/surface, tangent and normal.",
         technique="TLA+ spec (Shape, Hodo, MC_C02) model-checked exhaustively with TLC; spec->code replay of every transition",
         design="4 C02"),
+    "C04": dict(
+        text="The Geomdl.tla state machine is explored over histories of insert_knot calls (single and multi-direction, admissible counts "
+             "and over-insertion) on curves, surfaces and volumes; TLC checks on every transition that the shape function is unchanged "
+             "(exact, deg+1 samples per span and direction), the structural claims and the rejection rule; every reachable state is replayed "
+             "into real objects through operations.insert_knot and the object methods with the whole definition compared.",
+        technique="TLA+ state machine (Ops, Geomdl, MC_C04) with action properties checked by TLC; spec->code replay of every history",
+        design="4 C04"),
+    "C05": dict(
+        text="Histories of refine_knotvector calls (all direction subsets, densities, depth 2 on curves) and helper-level refinement with "
+             "explicit/additional knot lists; TLC checks shape preservation and the bisection/multiplicity structure on every transition; "
+             "every state is replayed into real objects.",
+        technique="TLA+ state machine (Ops, Geomdl, MC_C05) with action properties checked by TLC; spec->code replay of every history",
+        design="4 C05"),
+    "C06": dict(
+        text="Histories (insert | refine) ; remove in which removal is enabled only for exactly removable knots (definition: the reduced "
+             "shape re-inserts to the current one). TLC checks that the book-faithful A5.8 transcription inverts A5.1, passes its own "
+             "test and preserves the function; every history is replayed through operations.remove_knot and the object methods.",
+        technique="TLA+ state machine (Ops incl. A5.8 transcription, Geomdl, MC_C06) checked by TLC; spec->code replay of every history",
+        design="4 C06"),
 }
 
 PENDING_REASON = "check not built yet (work in progress, see DESIGN.md section 8 build order)"
